@@ -20,7 +20,7 @@ NOT_APPLICABLE = {
 CHECKS = {
     'C01': {
         'text': 'every operator chain of <=3 operators over distinct primes with one decoration (-,+,%) and one parenthesis pair (exhaustive in the thorough tier), Hypothesis typed expression trees over literals and references fed by workbook constants / overrides / blanks, and a numeric-literal grid, each evaluated through Parser+Executor and compared with an independent precedence-aware evaluator; two open findings (misgrouped & / comparison, %) are attributed by structural trigger',
-        'note': 'trusted: vf/ref/formula.py (own Pratt parser + evaluator written from the statement), IEEE doubles, tolerance 1e-12; text/bool/blank text forms outside the asserted domain',
+        'note': 'trusted: vf/ref/formula.py (own Pratt parser + evaluator written from the statement), IEEE doubles, tolerance 1e-12; text forms under & asserted for booleans, blanks and numbers without exponent form',
         'technique': 'exhaustive small-bound enumeration + Hypothesis typed ASTs vs reference evaluator (differential)',
     },
     'C10': {
